@@ -260,8 +260,8 @@ inductive Ev
   | rmFile (t : Name) (p : Path)
   | rmDir (t : Name) (p : Path)
   | notEmpty (t : Name) (p : Path)
-  | crash (t : Name) (p : Path)     -- `os.rmdir` on a symbolic link to an empty directory: NotADirectoryError, the
-                                    --   command dies here; what the model computes after this event is not the code's
+  | crash (t : Name) (p : Path)     -- only in `rmLinkPinned` (the code before fix a5ed062): `os.rmdir` on a symbolic link
+                                    --   to an empty directory, NotADirectoryError, the command died here
 deriving DecidableEq, Repr
 
 /-- code-point lexicographic `≤` on strings (python `str` ordering) -/
@@ -285,9 +285,20 @@ def hasEntry (w : World) (d : Path) : Bool := (w.files ++ w.dirs ++ w.links.map 
 /-- where the symbolic link `p` points to (`none`: `p` is not a link) -/
 def linkDest (w : World) (p : Path) : Option Path := alookup p w.links
 
-/-- a target that is a symbolic link to `d`: `os.path.isfile` / `isdir` / `listdir` follow the link, `os.remove`
-    removes the link itself (never its destination), `os.rmdir` refuses a link -/
+/-- a target that is a symbolic link to `d`: `os.path.isfile` / `isdir` / `listdir` follow the link; what is removed
+    is always the link itself, never its destination: `os.remove(link)` for a link to a file and (since fix a5ed062)
+    also for a link to an empty directory, where the code announces "removing dir" -/
 def rmLink (dry : Bool) (t : Name) (st : World × List Ev) (p d : Path) : World × List Ev :=
+  if d ∈ st.1.files then
+    ((if dry then st.1 else { st.1 with links := st.1.links.filter (fun l => l.1 ≠ p) }), st.2 ++ [Ev.rmFile t p])
+  else if d ∈ st.1.dirs then
+    if hasEntry st.1 d then (st.1, st.2 ++ [Ev.notEmpty t p])
+    else ((if dry then st.1 else { st.1 with links := st.1.links.filter (fun l => l.1 ≠ p) }), st.2 ++ [Ev.rmDir t p])
+  else st
+
+/-- the behaviour before fix a5ed062 (kept for the counterexample theorem): `os.rmdir` was called on the link to an
+    empty directory, NotADirectoryError, the command died after the announcement (event `crash`) -/
+def rmLinkPinned (dry : Bool) (t : Name) (st : World × List Ev) (p d : Path) : World × List Ev :=
   if d ∈ st.1.files then
     ((if dry then st.1 else { st.1 with links := st.1.links.filter (fun l => l.1 ≠ p) }), st.2 ++ [Ev.rmFile t p])
   else if d ∈ st.1.dirs then
@@ -356,7 +367,7 @@ deriving Repr
 def isCrash : Ev → Bool
   | .crash _ _ => true
   | _ => false
-/-- the command died in `os.rmdir` (symbolic link to an empty directory among the targets) -/
+/-- a `crash` event was emitted: never, for the current model (`Props/C14.lean` `clean_runs_to_its_end`) -/
 def Result.crashed (r : Result) : Bool := r.events.any isCrash
 
 /-- the whole command -/
@@ -491,6 +502,8 @@ def monitorEffects (tbl : Table) (r : Req) (cleaned : List Name) (w w' : World) 
     && w'.links.all (· ∈ w.links)
     && w.links.all (fun l => l ∈ w'.links || l.1 ∈ tg)
     && w.links.all (fun l => !(l.1 ∈ tg && l.2 ∈ w.files && !(l.2 ∈ tg) && !(l.2 ∈ ep)) || !(l ∈ w'.links))
+    -- ... and so is a target link to a directory that is empty from the start (nothing creates entries below it)
+    && w.links.all (fun l => !(l.1 ∈ tg && l.2 ∈ w.dirs && !hasEntry w l.2) || !(l ∈ w'.links))
 where
   subset' (a b : List Path) : Bool := a.all (· ∈ b)
 
